@@ -76,6 +76,16 @@ def main(argv):
                     elif not agrees:
                         corr_fail.append({"input": inp, "implementation": impl, "model": model, "what": "parse after history"})
                     continue
+                if kind == "calls":
+                    im = fields(impl)
+                    agrees = norm(impl) == model
+                    if im.get("F") != im.get("H") or im.get("S") != "same":
+                        prop_fail.append({"input": inp, "implementation": impl, "model": model, "agrees_with_model": agrees,
+                                          "kind": "history of parser calls: after a sequence of ResetAddNewInput / NewInput / ParseTokens / Reset / Stop calls (abandoned forms, queued streams, a stopped coroutine) the text parses differently than on a new parser, or Reset leaves different state, or a call panics",
+                                          "finding": None})
+                    elif not agrees:
+                        corr_fail.append({"input": inp, "implementation": impl, "model": model, "what": "replies of the ParseTokens calls of a call sequence vs Model/ReaderSession.v do_call"})
+                    continue
                 if kind == "repl":
                     im = fields(impl)
                     r, w = im.get("R", ""), im.get("W", "")
@@ -91,6 +101,8 @@ def main(argv):
                         bad = "the REPL reader kept asking for lines although the text parsed whole does not ask for more input"
                     elif r == "E" and w[:1] != "E":
                         bad = "the REPL reader reports an error on a text that parses whole"
+                    elif spec != "-" and r[:1] == "D" and norm(r) != fields(spec).get("W"):
+                        bad = "the expressions the REPL reader obtained differ from the specification: the whole-text parse (model) of the lines it consumed (theorem repl_is_whole)"
                     if bad:
                         prop_fail.append({"input": inp, "implementation": impl, "model": model, "agrees_with_model": agrees,
                                           "kind": "REPL: " + bad, "finding": None})
